@@ -362,7 +362,7 @@ Qed.
 Lemma step_inv fx s a s' : Inv fx s -> step fx s a = Some s' -> Inv fx s'.
 Proof.
   intros I H. pose proof I as [Ic It Ial Iw Ir Il Is Ila Icr Ifx Isn].
-  destruct a as [ |p|p|c|c|t|t|t|t|t|t|t|t|t|c|c|c|c|c|c|c v|c|c|c m|c|c|c|c|c|c|c]; cbn [step] in H.
+  destruct a as [ |p|p|c|c|t|t|t|t|t|t|t|t|t|c|c|c|c|c|c|c|c v|c|c|c m|c|c|c|c|c|c|c]; cbn [step] in H.
   - (* ACallStop *)
     inversion H; subst; clear H. cinv.
     intros t pc Ht. apply nth_app_cases in Ht as [Ht|[_ ->]]; [eauto|].
@@ -521,6 +521,13 @@ Proof.
     apply Inv_conn_step with (k := k); auto; [|cbn; rewrite Es; discriminate].
     cinv. rewrite H3. intros [E|[E|E]]; discriminate.
   - (* ARecvIdFail *)
+    destruct (nth_error (conns s) c) as [k|] eqn:Ek; [|discriminate].
+    destruct (setup k) eqn:Es; try discriminate.
+    destruct (lopen k && popen k); [discriminate|]. inversion H; subst; clear H.
+    destruct (Ic _ _ Ek) as [H1 H2 H3 H4 H5 H6 H7 H8]. rewrite Es in H3.
+    apply Inv_conn_step with (k := k); auto.
+    cinv; try discriminate. rewrite H3. intros [E|[E|E]]; discriminate.
+  - (* ARecvIdTimeout *)
     destruct (nth_error (conns s) c) as [k|] eqn:Ek; [|discriminate].
     destruct (setup k) eqn:Es; try discriminate. inversion H; subst; clear H.
     destruct (Ic _ _ Ek) as [H1 H2 H3 H4 H5 H6 H7 H8]. rewrite Es in H3.
@@ -958,7 +965,7 @@ Proof.
   pose proof (nth_error_lt _ _ _ Hk) as Lt.
   destruct (H8 Hn) as [Np|Sd].
   - destruct (setup k) eqn:Es; try discriminate.
-    + exists (ARecvIdFail c). eexists. split; [exact Logic.I|]. cbn. rewrite Hk, Es.
+    + exists (ARecvIdFail c). eexists. split; [exact Logic.I|]. cbn. rewrite Hk, Es, (H7 Hc Hn). cbn.
       split; [reflexivity|]. cbn. repeat split; auto.
       specialize (M (set_setup (close_conn k) SetupErr)). cbn in M. rewrite Hn in M. cbn in M. lia.
     + exists (ACheckPeer c true). eexists. split; [exact Logic.I|]. cbn. rewrite Hk, Es.
@@ -1048,16 +1055,19 @@ Proof.
   destruct (f11 fx); cbn; rewrite nth_error_upd_eq by auto; eexists; repeat split; reflexivity.
 Qed.
 
-(* every connection set-up in progress (dialling side inside connect(), accepting
-   side inside the Listen callback) has an enabled step of its own, and each such step
-   brings it nearer to its end.  For IRecvId the step is the return of
-   receiveServerIdentity, i.e. the peer's identity, its close, or the read time-out. *)
+(* every connection set-up in progress (dialling side inside connect(), accepting side
+   inside the Listen callback) has an enabled step of its own that brings it nearer to its
+   end - EXCEPT a callback inside receiveServerIdentity on a connection that is open on both
+   sides: that one waits for the peer (its identity, its close) or, on TCP only, for the read
+   time-out.  Stop ends this wait by closing the connection (repair f43, see
+   closed_at_return_fixed / neg_progress). *)
 Theorem setup_progress fx s c k :
   nth_error (conns s) c = Some k -> setting_up (setup k) = true ->
+  (setup k = IRecvId -> lopen k && popen k = false) ->
   exists a s' k', step fx s a = Some s' /\ nth_error (conns s') c = Some k' /\
                   sm (setup k') < sm (setup k) /\ senders s' = senders s.
 Proof.
-  intros H Su. pose proof (nth_error_lt _ _ _ H) as L.
+  intros H Su Hrd. pose proof (nth_error_lt _ _ _ H) as L.
   destruct (setup k) eqn:Es; try discriminate.
   - exists (ASendIdOk c). eexists. eexists. cbn. rewrite H, Es. split; [reflexivity|]. cbn.
     rewrite nth_error_upd_eq by auto. repeat split. cbn. lia.
@@ -1075,7 +1085,7 @@ Proof.
     exists (ABegin c). cbn. rewrite H, Es.
     destruct (f43 fx); [destruct (closed s)|]; eexists; eexists; (split; [reflexivity|]); cbn;
       rewrite nth_error_upd_eq by auto; repeat split; cbn; lia.
-  - exists (ARecvIdFail c). eexists. eexists. cbn. rewrite H, Es. split; [reflexivity|]. cbn.
+  - exists (ARecvIdFail c). eexists. eexists. cbn. rewrite H, Es, (Hrd eq_refl). split; [reflexivity|]. cbn.
     rewrite nth_error_upd_eq by auto. repeat split. cbn. lia.
   - exists (ACheckPeer c true). eexists. eexists. cbn. rewrite H, Es. split; [reflexivity|]. cbn.
     rewrite nth_error_upd_eq by auto. repeat split. cbn. lia.
@@ -1129,7 +1139,8 @@ Proof.
   - (* NConnect *)
     cbn in Ok. destruct Ok as (k & Hk & D).
     destruct (setting_up (setup k)) eqn:Su.
-    + destruct (setup_progress fx s c k Hk Su) as (a & s' & k' & Hs & Hk' & M & Se).
+    + assert (Hrd : setup k = IRecvId -> lopen k && popen k = false) by (intros E; rewrite E in D; discriminate).
+      destruct (setup_progress fx s c k Hk Su Hrd) as (a & s' & k' & Hs & Hk' & M & Se).
       exists a, s', (NConnect q c r). split; auto. split; [congruence|].
       unfold nmeasure, csm. rewrite Hk, Hk'. destruct r; lia.
     + exists (AConnReturn t). cbn. rewrite Ht, Hk.
@@ -1244,3 +1255,32 @@ Example arrival_during_stop :
               [AIncoming 1; ACallStop; AHostStop 0; ACloseAll 0; AWait 0; ABegin 0] = Some s /\
             stop_returned s = true /\ quiescent s = true /\ open_conns s = [] /\ wg s = 0.
 Proof. eexists. split; [vm_compute; reflexivity|]. repeat split. Qed.
+
+(* ---- the progress measures never go up -------------------------------------- *)
+(* (sender_progress and handlers_drain say that a decreasing step is enabled; these lemmas
+   say that no step of anybody raises the measure, so under a scheduler that is fair to the
+   goroutine concerned the measure reaches zero) *)
+
+Lemma sm_upd cs c0 k0 k0' c k :
+  nth_error cs c0 = Some k0 -> sm (setup k0') <= sm (setup k0) -> nth_error cs c = Some k ->
+  exists k', nth_error (upd cs c0 k0') c = Some k' /\ sm (setup k') <= sm (setup k).
+Proof.
+  intros H0 Hle Hc. destruct (Nat.eq_dec c0 c) as [->|N].
+  - rewrite nth_error_upd_eq by (eapply nth_error_lt; eauto). eexists. split; eauto. congruence.
+  - rewrite nth_error_upd_neq by auto. eauto.
+Qed.
+
+Lemma sm_noninc fx s a s' c k :
+  step fx s a = Some s' -> nth_error (conns s) c = Some k ->
+  exists k', nth_error (conns s') c = Some k' /\ sm (setup k') <= sm (setup k).
+Proof.
+  intros H Hc.
+  destruct a; cbn [step] in H; unfold give_up in H; step_cases H; inversion H; subst; cbn [conns set_conns set_senders
+    set_stops set_table set_wg set_abandoned];
+    try (eexists; split; [eassumption|lia]);
+    try (rewrite nth_error_app1 by (eapply nth_error_lt; eauto); eexists; split; [eassumption|lia]);
+    try (eapply sm_upd; eauto; cbn;
+         repeat match goal with E : setup _ = _ |- _ => rewrite E end; cbn; lia).
+  (* ACloseAll *)
+  rewrite nth_close_listed, Hc. cbn. eexists. split; [reflexivity|]. destruct (mem c (table s) || neg k); cbn; lia.
+Qed.
